@@ -39,12 +39,18 @@ func toTwosComplement(res, x *big.Int, targetBitSize uint) *big.Int {
 	return res.SetBytes(bytes)
 }
 
-// toTwosComplement converts `res` to the big.Int representation from the two's complement format of a
-// signed integer.
+// fromTwosComplement converts `res` from the two's complement format of a signed integer
+// of the given bit size to the big.Int it represents.
+// `res` must be non-negative and less than 2^bitSize.
 // `res` is returned and can be positive or negative.
-func fromTwosComplement(res *big.Int) *big.Int {
-	bytes := res.Bytes()
-	return values.BigEndianBytesToSignedBigInt(bytes)
+func fromTwosComplement(res *big.Int, bitSize uint) *big.Int {
+	// The sign is the bit at position bitSize-1 of the fixed-width representation,
+	// not the top bit of the minimal byte representation.
+	if res.Bit(int(bitSize)-1) != 0 {
+		modulus := new(big.Int).Lsh(big.NewInt(1), bitSize)
+		res.Sub(res, modulus)
+	}
+	return res
 }
 
 // truncate trims a big.Int to maxWords by directly modifying its underlying representation.
@@ -668,7 +674,7 @@ func (v Int128Value) BitwiseLeftShift(context ValueStaticTypeContext, other Inte
 		res = toTwosComplement(res, v.BigInt, 128)
 		res = res.Lsh(res, uint(o.BigInt.Uint64()))
 		res = truncate(res, 128/bits.UintSize)
-		return fromTwosComplement(res)
+		return fromTwosComplement(res, 128)
 	}
 
 	return NewInt128ValueFromBigInt(context, valueGetter)
@@ -688,6 +694,10 @@ func (v Int128Value) BitwiseRightShift(context ValueStaticTypeContext, other Int
 		panic(&NegativeShiftError{})
 	}
 	if !o.BigInt.IsUint64() {
+		// All value bits are shifted out: the result of the arithmetic shift is the sign
+		if v.BigInt.Sign() < 0 {
+			return NewInt128ValueFromInt64(context, -1)
+		}
 		return NewInt128ValueFromInt64(context, 0)
 	}
 
